@@ -85,6 +85,67 @@ func split(n, k, x int) []int {
 	}
 }
 
+// zeroMix inserts empty writes into a split: z = 1 one before every part, z = 2 one after every
+// part, z = 3 before every part and after the last one (Chunk.tla ZeroMix), z = 4 at one place
+// chosen by x (possibly doubled).
+func zeroMix(sp []int, z, x int) []int {
+	var out []int
+	switch z {
+	case 1, 2, 3:
+		for _, n := range sp {
+			if z == 1 || z == 3 {
+				out = append(out, 0)
+			}
+			out = append(out, n)
+			if z == 2 {
+				out = append(out, 0)
+			}
+		}
+		if z == 3 {
+			out = append(out, 0)
+		}
+	case 4:
+		at := x % (len(sp) + 1)
+		for i, n := range sp {
+			if i == at {
+				out = append(out, 0)
+				if x%5 == 0 {
+					out = append(out, 0)
+				}
+			}
+			out = append(out, n)
+		}
+		if at == len(sp) {
+			out = append(out, 0)
+		}
+	default:
+		return sp
+	}
+	return out
+}
+
+// lateOps are the calls a writer may still make after Close; each must fail and change nothing.
+var lateOps = [][]string{{"write"}, {"close"}, {"write", "close", "next", "yield"}, {"next", "write", "close"}, {"yield", "write0"}}
+
+func withLate(s []Op, names []string) []Op {
+	for _, n := range names {
+		switch n {
+		case "next":
+			s = append(s, Op{Op: "next", Key: keyFor("a", 4)})
+		case "write":
+			s = append(s, Op{Op: "write", N: 1})
+		case "write0":
+			s = append(s, Op{Op: "write", N: 0})
+		default:
+			s = append(s, Op{Op: n})
+		}
+	}
+	return s
+}
+
+var feedEmpties = []string{"", "", "", "before", "after", "both"}
+var bodyReads = []int{0, 0, 0, 1, 2, 5, 64}
+
 // Msg is one logical message of a script under construction.
 type Msg struct {
 	Key    *Key
@@ -229,9 +290,21 @@ func SweepParams(thorough bool, seed int64, limit int) []Params {
 						if rng.Intn(3) == 0 {
 							msgs[i].Splits = split(msgs[i].Len, 2+rng.Intn(2), rng.Intn(3))
 						}
+						if rng.Intn(4) == 0 { // empty writes before, between and after the parts
+							sp := msgs[i].Splits
+							if len(sp) == 0 {
+								sp = []int{msgs[i].Len}
+							}
+							msgs[i].Splits = zeroMix(sp, 1+rng.Intn(4), rng.Intn(30))
+						}
+					}
+					script := BuildScript(msgs, yields)
+					if rng.Intn(8) == 0 {
+						script = withLate(script, lateOps[rng.Intn(len(lateOps))])
 					}
 					add(Params{MTU: mtu, Buffers: bufferChoices[rng.Intn(len(bufferChoices))], InMode: inModes[rng.Intn(len(inModes))],
-						Script: BuildScript(msgs, yields), Sched: Sched{Mode: schedModes[rng.Intn(len(schedModes))]}})
+						Script: script, Sched: Sched{Mode: schedModes[rng.Intn(len(schedModes))]},
+						FeedEmpty: feedEmpties[rng.Intn(len(feedEmpties))], BodyRead: bodyReads[rng.Intn(len(bodyReads))]})
 				}
 			}
 		}
@@ -253,8 +326,12 @@ func SweepParams(thorough bool, seed int64, limit int) []Params {
 						yields[1] = true
 					}
 					msgs := []Msg{{Key: keyFor("a", k1), Len: n1, Splits: split(n1, 1+rng.Intn(3), rng.Intn(3))}}
+					if rng.Intn(3) == 0 {
+						msgs[0].Splits = zeroMix(msgs[0].Splits, 1+rng.Intn(4), rng.Intn(30))
+					}
 					add(Params{MTU: mtu, Buffers: bufferChoices[rng.Intn(len(bufferChoices))], InMode: inModes[rng.Intn(len(inModes))],
-						Script: BuildScript(msgs, yields), Sched: Sched{Mode: schedModes[rng.Intn(len(schedModes))]}})
+						Script: BuildScript(msgs, yields), Sched: Sched{Mode: schedModes[rng.Intn(len(schedModes))]},
+						FeedEmpty: feedEmpties[rng.Intn(len(feedEmpties))], BodyRead: bodyReads[rng.Intn(len(bodyReads))]})
 				}
 			}
 		}
@@ -274,6 +351,21 @@ func SweepParams(thorough bool, seed int64, limit int) []Params {
 						Script: BuildScript(msgs, nil), Sched: Sched{Mode: schedModes[rng.Intn(len(schedModes))]}})
 				}
 			}
+		}
+	}
+	// the longest keys a service info can carry at all (7 + raw key = 65535) at the largest budget
+	for _, k1 := range []int{65000, 65524, 65525} {
+		for rem := 0; rem <= 40; rem++ {
+			n1 := lenFor(65535, k1, rem)
+			if n1 == 0 {
+				continue
+			}
+			msgs := []Msg{{Key: keyFor("a", k1), Len: n1}, {Key: keyFor("b", []int{4, 65525}[rng.Intn(2)]), Len: 1 + rng.Intn(20)}}
+			if rng.Intn(2) == 0 {
+				msgs[0].Splits = zeroMix([]int{n1}, 1+rng.Intn(3), 0)
+			}
+			add(Params{MTU: 65535, Buffers: bufferChoices[rng.Intn(len(bufferChoices))], InMode: inModes[rng.Intn(len(inModes))],
+				Script: BuildScript(msgs, nil), Sched: Sched{Mode: schedModes[rng.Intn(len(schedModes))]}})
 		}
 	}
 	if limit > 0 && len(out) > limit {
